@@ -327,6 +327,9 @@ def run(ctx):
     for _ in range(3000 if tier == "quick" else 30000):
         lists.append([rng.choice(alphabet) for _ in range(rng.randrange(1, 9))])
     env3 = {"va": 5}
+    # neither side is asked to build astronomically large integers: token lists in which a shift count could
+    # exceed 4096 are dropped (checked by a guarded evaluation of the real shunting-yard output)
+    lists = [l for l in lists if not huge_shift(l)]
     model = drv.ask(["evalt va=5,blk=! " + " ".join(l) for l in lists])
     for l, m_ in zip(lists, model):
         from a816.parse.ast.nodes import BlockAstNode
@@ -369,6 +372,51 @@ def run(ctx):
             s4.disagree({"op": "~", "v": v}, x, exp)
     s4.sample({"pair": pairs[3], "and": ands[3]})
     return [s1, s2, s3, s4]
+
+
+def huge_shift(toks):
+    """True when evaluating the list could shift by more than 4096 bits or build a number beyond 2^8192"""
+    from a816.parse.ast.expression import shunting_yard
+    from a816.parse.ast.nodes import BinOp, UnaryOp
+    try:
+        rpn = shunting_yard(build_ast(toks).tokens)
+    except Exception:  # noqa: BLE001
+        return False
+    st = []
+    try:
+        for n in rpn:
+            v = n.token.value
+            if isinstance(n, BinOp):
+                b, a = st.pop(), st.pop()
+                if v in ("<<", ">>") and abs(b) > 4096:
+                    return True
+                r = {"+": a + b, "-": a - b, "*": a * b, "&": a & b, "|": a | b}.get(v)
+                if v == "<<":
+                    r = a << b if b >= 0 else 0
+                if v == ">>":
+                    r = a >> b if b >= 0 else 0
+                if r is None:
+                    return False
+                if abs(r) > (1 << 8192):
+                    return True
+                st.append(r)
+            elif isinstance(n, UnaryOp):
+                a = st.pop()
+                st.append(-a if v == "-" else (~a & 0xFFFFFFFF))
+            elif v and v[0].isdigit():
+                try:
+                    st.append(int(v, 0) if not v.startswith("0") or len(v) == 1 or v[1] in "xb" else int(v))
+                except ValueError:
+                    return False
+            elif v == "va":
+                st.append(5)
+            elif v in ("(", ")"):
+                continue
+            else:
+                return False
+    except (IndexError, TypeError):
+        return False
+    return False
 
 
 def strip_outer_for_macro(t):
